@@ -529,8 +529,31 @@ func (in *inst) merge(b *ssa.BasicBlock, preds []*State, predBlocks []*ssa.Basic
 		}
 	}
 	if l != nil {
-		// loop header: the heap is unknown inside the loop (stores and calls in the body)
+		// loop header: the heap is unknown inside the loop when the body stores to it or calls out;
+		// a loop that only reads (a scan over a slice) keeps what was known before it
 		st.Heap = map[string]AVal{}
+		if !loopWritesHeap(l) {
+			for i, p := range predBlocks {
+				if l.Blocks[p] {
+					continue
+				}
+				for k, v := range preds[i].Heap {
+					st.Heap[k] = v
+				}
+				break
+			}
+			// several entry edges: keep only what they agree on
+			for i, p := range predBlocks {
+				if l.Blocks[p] {
+					continue
+				}
+				for k, v := range st.Heap {
+					if w, ok := preds[i].Heap[k]; !ok || !sameAVal(v, w) {
+						delete(st.Heap, k)
+					}
+				}
+			}
+		}
 	} else {
 		// heap join: keep locations on which all predecessors agree; otherwise fresh with templates
 		for k, v := range preds[0].Heap {
@@ -804,6 +827,12 @@ func (in *inst) val(st *State, v ssa.Value) AVal {
 				return AVal{Kind: KInt, Int: Const(n)}
 			}
 		}
+		if c.Value.Kind() == constant.Bool {
+			if constant.BoolVal(c.Value) {
+				return AVal{Kind: KInt, Int: Const(1)}
+			}
+			return AVal{Kind: KInt, Int: Const(0)}
+		}
 		if c.Value.Kind() == constant.String {
 			return AVal{Kind: KSlice, Len: Const(int64(len(constant.StringVal(c.Value))))}
 		}
@@ -839,6 +868,12 @@ func (in *inst) refine(ps *State, p, b *ssa.BasicBlock) *State {
 // assume adds what cond == truth implies.
 func (in *inst) assume(st *State, cond ssa.Value, truth bool) {
 	switch c := cond.(type) {
+	case *ssa.Extract:
+		// a boolean result of a call with several returns (`v, ok := f()`): if every return gives a
+		// constant for it and exactly one matches, that return's facts and results hold
+		if ov := in.val(st, c); ov.Rec != nil {
+			in.importReturnBool(st, ov, truth)
+		}
 	case *ssa.UnOp:
 		if c.Op == token.NOT {
 			in.assume(st, c.X, !truth)
@@ -924,6 +959,43 @@ func (in *inst) importReturn(st *State, ov AVal, isNil bool) {
 		}
 		if n == 0 {
 			return // some return is undetermined: cannot select
+		}
+	}
+	if len(match) != 1 {
+		return
+	}
+	r := match[0]
+	if len(r.State.Facts) >= rec.NFacts {
+		st.add(r.State.Facts[rec.NFacts:]...)
+	}
+	for i, cr := range rec.Results {
+		rr := r.Results[i]
+		switch {
+		case cr.Kind == KInt && rr.Kind == KInt:
+			st.add(EQ(cr.Int, rr.Int)...)
+		case cr.Kind == KSlice && rr.Kind == KSlice:
+			st.add(EQ(cr.Len, rr.Len)...)
+		}
+	}
+	for k, v := range r.State.Heap {
+		st.Heap[k] = v
+	}
+}
+
+// importReturnBool: like importReturn, selecting on a boolean result that is constant at every return.
+func (in *inst) importReturnBool(st *State, ov AVal, truth bool) {
+	rec := ov.Rec
+	var match []retInfo
+	for _, r := range rec.Rets {
+		if ov.Idx >= len(r.Results) {
+			return
+		}
+		b := r.Results[ov.Idx]
+		if b.Kind != KInt || !b.Int.IsConst() {
+			return // not a constant at some return: cannot select
+		}
+		if (b.Int.K.Sign() != 0) == truth {
+			match = append(match, r)
 		}
 	}
 	if len(match) != 1 {
@@ -1267,6 +1339,19 @@ func (in *inst) binop(st *State, x *ssa.BinOp) AVal {
 				return v
 			}
 		}
+	case token.SHL:
+		// x << k for a small constant k is x * 2^k (narrow types wrap, see narrow)
+		if b.Int.IsConst() && b.Int.K.IsInt() && b.Int.K.Sign() >= 0 && b.Int.K.Num().IsInt64() && b.Int.K.Num().Int64() <= 32 {
+			f := new(big.Rat).SetInt(new(big.Int).Lsh(big.NewInt(1), uint(b.Int.K.Num().Int64())))
+			return narrow(a.Int.Scale(f))
+		}
+	case token.OR:
+		// for non-negative operands: max(x, y) <= x | y <= x + y
+		if Proves(st.Facts, GE(a.Int, Const(0))) && Proves(st.Facts, GE(b.Int, Const(0))) {
+			v := in.a.freshInt(st, x.Type(), x.Name())
+			st.add(GE(v.Int, a.Int), GE(v.Int, b.Int), LE(v.Int, a.Int.Add(b.Int)))
+			return v
+		}
 	case token.SHR:
 		v := in.a.freshInt(st, x.Type(), x.Name())
 		if Proves(st.Facts, GE(a.Int, Const(0))) {
@@ -1436,6 +1521,33 @@ func (in *inst) doCall(st *State, c *ssa.Call) AVal {
 				h[k] = v
 			}
 		}
+		// slices that provably have the same constant length at every return (a helper that allocates a
+		// one-byte buffer unless there is one already)
+		for k, v := range rets[0].State.Heap {
+			if _, done := h[k]; done || v.Kind != KSlice {
+				continue
+			}
+			var kk *big.Rat
+			for _, r := range rets {
+				if w, has := r.State.Heap[k]; has && w.Kind == KSlice && w.Len.IsConst() {
+					kk = w.Len.K
+				}
+			}
+			if kk == nil {
+				continue
+			}
+			cst := Lin{K: kk, T: map[string]*big.Rat{}}
+			all := true
+			for _, r := range rets {
+				w, has := r.State.Heap[k]
+				if !has || w.Kind != KSlice || !(Proves(r.State.Facts, GE(w.Len, cst)) && Proves(r.State.Facts, LE(w.Len, cst))) {
+					all = false
+				}
+			}
+			if all {
+				h[k] = AVal{Kind: KSlice, Len: cst}
+			}
+		}
 		st.Heap = h
 		// facts that every return establishes about the results (range templates): 0 <= r, r <= len(param)
 		for i := range res {
@@ -1599,4 +1711,31 @@ func (a *Analyzer) CheckCountResult(idx, pidx int) []RetCheck {
 		out = append(out, RetCheck{r.Ret, ge && le, d})
 	}
 	return out
+}
+
+// loopWritesHeap: the loop's blocks contain a store that is not to a local variable, a map update, or a
+// call other than a side-effect-free builtin.
+func loopWritesHeap(l *ir.Loop) bool {
+	for b := range l.Blocks {
+		for _, in := range b.Instrs {
+			switch x := in.(type) {
+			case *ssa.Store:
+				if al, ok := x.Addr.(*ssa.Alloc); ok && !al.Heap {
+					continue
+				}
+				return true
+			case *ssa.MapUpdate, *ssa.Send, *ssa.Go, *ssa.Defer:
+				return true
+			case *ssa.Call:
+				if bi, ok := x.Common().Value.(*ssa.Builtin); ok {
+					switch bi.Name() {
+					case "len", "cap", "append", "min", "max":
+						continue
+					}
+				}
+				return true
+			}
+		}
+	}
+	return false
 }
